@@ -653,7 +653,6 @@ func (ev *c08Eval) classify(op string, a, b c08Val) {
 		if a.K == "err" || b.K == "err" {
 			return
 		}
-		isEq := op == "eq" || op == "ne"
 		ka, kb := a.K, b.K
 		has := func(k string) bool { return ka == k || kb == k }
 		switch {
@@ -662,47 +661,19 @@ func (ev *c08Eval) classify(op string, a, b c08Val) {
 				ev.dev("emptytext-as-zero")
 			}
 		case ka == "text" && kb == "text":
-			if isEq && (a.S == b.S) != (c08Upper(a.S) == c08Upper(b.S)) {
-				ev.dev("cmp:text-case")
-			}
-			if !isEq && strings.Compare(a.S, b.S) != strings.Compare(c08Upper(a.S), c08Upper(b.S)) {
-				ev.dev("cmp:text-case")
-			}
+			// (= and <> are typed and case-insensitive since the fix-window repair of calcEq/calcNEq)
 		case has("bool") && !(ka == "bool" && kb == "bool"):
-			if isEq {
-				// Value() strings: "TRUE"/"FALSE" against the other side's text
-				o := a
-				bv := b
-				if ka == "bool" {
-					o, bv = b, a
-				}
-				switch o.K {
-				case "text":
-					if o.S == "TRUE" || o.S == "FALSE" {
-						ev.dev("cmp:bool-as-number")
-					}
-				case "blank":
-					if !bv.B {
-						ev.dev("cmp:bool-as-number")
-					}
-				}
-			} else {
+			// typed order since the fix-window repair; what is left: a blank operand is turned into
+			// the number 0 first, so blank vs FALSE compares as number < logical instead of equal
+			o, bv := a, b
+			if ka == "bool" {
+				o, bv = b, a
+			}
+			if o.K == "blank" && !bv.B {
 				ev.dev("cmp:bool-as-number")
 			}
 		case has("num") && has("text") || has("blank") && has("text"):
-			if isEq {
-				x, s := a, b
-				if ka == "text" {
-					x, s = b, a
-				}
-				if fmt.Sprintf("%g", x.N) == s.S { // blank: N is 0
-					ev.dev("eq:number-text")
-				}
-			}
-		case (ka == "num" || ka == "blank") && (kb == "num" || kb == "blank"):
-			if isEq && (fmt.Sprintf("%g", a.N) == fmt.Sprintf("%g", b.N)) != (a.N == b.N) {
-				ev.dev("eq:negzero")
-			}
+			// a number never equals text (fixed: eq:number-text); ±0 are equal (fixed: eq:negzero)
 		}
 	}
 }
